@@ -14,6 +14,9 @@ from lbry.wallet.dewies import dewies_to_lbc, lbc_to_dewies, dict_values_to_lbc
 from lbry.conf import Config
 from lbry.extras.daemon.storage import SQLiteStorage, calculate_effective_amount
 from lbry.extras.daemon.exchange_rate_manager import ExchangeRateManager
+from lbry.schema.claim import Claim
+from lbry.schema.purchase import Purchase
+from lbry.wallet import Ledger, Database, Headers, Transaction, Input, Output
 
 import vlib
 
@@ -298,6 +301,163 @@ def check_storage(run, model, amounts):
         shutil.rmtree(d, ignore_errors=True)
 
 
+SIGNED = re.compile(r'-?[0-9]{1,10}\.[0-9]{1,8}')
+
+
+def check_claim_storage(run, model, amounts, malformed):
+    """claims through the daemon database: save_claims parses the LBC amount of every claim of a batch, the claim table keeps
+    integer dewies, get_content_claim renders 'amount' and 'effective_amount' after a re-open. A malformed amount anywhere in a
+    batch must be refused, never stored under some other claim's amount."""
+    d = tempfile.mkdtemp(prefix='c20c_')
+    loop = asyncio.new_event_loop()
+    try:
+        conf = Config(data_dir=d, wallet_dir=d, download_dir=d, config=os.path.join(d, 'settings.yml'))
+        path = os.path.join(d, 'lbrynet.sqlite')
+        storage = SQLiteStorage(conf, path, loop=loop)
+        loop.run_until_complete(storage.open())
+
+        def info(i, amount_str):
+            claim = Claim()
+            claim.stream.title = 'claim %d' % i
+            claim.stream.source.sd_hash = ('%02x' % (i % 251)) * 48
+            return {'txid': '%064x' % (i + 1), 'nout': 0, 'claim_id': '%040x' % (i + 1), 'name': 'name%d' % i,
+                    'amount': amount_str, 'height': 100 + i, 'address': 'bAddr', 'claim_sequence': -1, 'value': claim,
+                    'supports': []}
+
+        streams = {}
+        for i, n in enumerate(amounts):
+            ci = info(i, dewies_to_lbc(n))
+            sd_hash, stream_hash = ci['value'].stream.source.sd_hash[:94] + '%02x' % (i // 251), '%096x' % (i + 7)
+            ci['value'].stream.source.sd_hash = sd_hash
+            loop.run_until_complete(storage.db.execute_fetchall(
+                "insert or ignore into blob values (?, 100, 0, 0, 'finished', 0, 0, 0, 0)", (sd_hash,)))
+            loop.run_until_complete(storage.db.execute_fetchall(
+                "insert into stream values (?, ?, 'key', '6e616d65', '6e616d65')", (stream_hash, sd_hash)))
+            streams[stream_hash] = (n, ci)
+        # one batch, as a resolve of many claims saves them
+        loop.run_until_complete(storage.save_claims([ci for _, ci in streams.values()]))
+        for stream_hash, (n, ci) in streams.items():
+            loop.run_until_complete(storage.save_content_claim(stream_hash, "%s:0" % ci['txid']))
+        loop.run_until_complete(storage.close())
+        storage = SQLiteStorage(conf, path, loop=loop)     # "restart"
+        loop.run_until_complete(storage.open())
+        for stream_hash, (n, ci) in streams.items():
+            case = {'op': 'claim_storage', 'n': n}
+            run.case(case, nontrivial=True, sample=False)
+            run.count('claim-storage')
+            try:
+                got = loop.run_until_complete(storage.get_content_claim(stream_hash))
+                figures = {'amount': got['amount'], 'effective_amount': got['effective_amount']}
+            except Exception as e:  # noqa
+                run.violation(case, f'a claim stored with amount {n} dewies cannot be read back: {type(e).__name__}: '
+                                    f'{str(e).strip()[:80]}', signature={'op': 'claim_storage', 'n': n})
+                continue
+            bad = None
+            for key, out in figures.items():
+                bad = (f'{key} is {out!r}, not an LBC string' if not isinstance(out, str) else monitor_format(n, out))
+                if bad:
+                    bad = f'amount {n} through save_claims/get_content_claim: {key}: {bad}'
+                    break
+            if bad:
+                run.violation(case, bad, signature={'op': 'claim_storage', 'n': n})
+            else:
+                run.compare('C20.claim_storage', case, figures, {k: model.call('format', n=n) for k in figures})
+        # malformed amounts at every position of a batch of three
+        base = 10 ** 6
+        for j, badstr in enumerate(malformed):
+            for pos in (0, 1, 2):
+                batch = [info(base + 10 * j + k, dewies_to_lbc(77700000000 + k)) for k in range(3)]
+                batch[pos]['amount'] = badstr
+                case = {'op': 'claim_batch', 'amount': badstr, 'position': pos}
+                run.case(case, nontrivial=True, sample=False)
+                run.count('claim-batch-malformed')
+                try:
+                    loop.run_until_complete(storage.save_claims(batch))
+                    outcome = 'accepted'
+                except ValueError:
+                    outcome = 'ValueError'
+                except Exception as e:  # noqa
+                    outcome = type(e).__name__
+                rows = loop.run_until_complete(storage.db.execute_fetchall(
+                    "select amount from claim where claim_outpoint=?", ("%s:0" % batch[pos]['txid'],)))
+                if rows:
+                    run.violation(case, f'a claim whose amount string {badstr!r} is outside the grammar was stored (as '
+                                        f'{rows[0][0]} dewies) instead of being refused (save_claims: {outcome})',
+                                  signature={'op': 'claim_batch', 'amount': badstr, 'position': pos})
+        loop.run_until_complete(storage.close())
+    finally:
+        loop.close()
+        shutil.rmtree(d, ignore_errors=True)
+
+
+def check_history(run, model, prices):
+    """Ledger.get_transaction_history (transaction_list): every amount, fee and balance delta of purchases and supports, bought /
+    sent by the wallet (negative deltas) and received by it, must be the exact signed decimal string"""
+    loop = asyncio.new_event_loop()
+    try:
+        ledger = Ledger({'db': Database(':memory:'), 'headers': Headers(':memory:')})
+        loop.run_until_complete(ledger.headers.open())
+        txs, expected = [], []
+        for i, price in enumerate(prices, start=1):
+            for kind in ('purchase', 'support'):
+                for mine in (True, False):
+                    funding = Transaction(height=10)
+                    ftxo = Output.pay_pubkey_hash(price + 10 ** 6, b'\x01' * 20)
+                    funding.add_outputs([ftxo])
+                    ftxo.is_my_output = mine
+                    tx = Transaction(height=20 + i)
+                    tx.add_inputs([Input.spend(funding.outputs[0])])
+                    change = Output.pay_pubkey_hash(10 ** 6 - 1000, b'\x03' * 20)
+                    if kind == 'purchase':
+                        payment = Output.pay_pubkey_hash(price, b'\x02' * 20)
+                        data = Output.add_purchase_data(Purchase(('%02x' % (i % 256)) * 20))
+                        tx.add_outputs([payment, data, change])
+                        payment.is_my_output, data.is_my_output = (not mine), False
+                        payment.purchase = data
+                    else:
+                        payment = Output.pay_support_pubkey_hash(price, 'name', ('%02x' % (i % 256)) * 20, b'\x02' * 20)
+                        tx.add_outputs([payment, change])
+                        payment.is_my_output = not mine      # sent by me to somebody / a tip received by me
+                    change.is_my_output = mine
+                    for txo in tx.outputs:
+                        txo.is_spent = False
+                    txs.append(tx)
+                    expected.append((kind, price, mine))
+
+        async def get_transactions(**_):
+            return txs
+        ledger.db.get_transactions = get_transactions
+        history = loop.run_until_complete(ledger.get_transaction_history())
+        for item, (kind, price, mine) in zip(history, expected):
+            case = {'op': 'history', 'kind': kind, 'price': price, 'mine': mine}
+            run.case(case, nontrivial=True, sample=False)
+            run.count('history:' + kind + (':sent' if mine else ':received'))
+            infos = item['purchase_info'] if kind == 'purchase' else item['support_info']
+            bad = None
+            figures = [('value', item['value'], None), ('fee', item['fee'], -1000 if mine else 0)]
+            if len(infos) != 1:
+                bad = f'{len(infos)} {kind}_info entries'
+            else:
+                figures += [(kind + '_info.amount', infos[0]['amount'], price),
+                            (kind + '_info.balance_delta', infos[0]['balance_delta'], -price if mine else price)]
+            for key, value, want in figures:
+                if bad:
+                    break
+                if not (isinstance(value, str) and SIGNED.fullmatch(value)):
+                    bad = f'{key} is {value!r}, not a signed LBC decimal string'
+                elif want is not None:
+                    bad = monitor_format(want, value)
+                    if not bad and value != model.call('format', n=want):
+                        bad = f'{key} {value!r} differs from the model'
+                    if bad:
+                        bad = f'{key}: {bad}'
+            if bad:
+                run.violation(case, f'{kind} of {price} dewies ({"sent by" if mine else "received by"} the wallet): {bad}',
+                              signature={'op': 'history', 'kind': kind, 'mine': mine, 'price': price})
+    finally:
+        loop.close()
+
+
 def main(run):
     model = vlib.Model('C20')
     rng = run.rng
@@ -333,6 +493,12 @@ def main(run):
         if 0 < n <= SUPPLY:
             check_to_dewies(run, model, erm, n, 'random')
     check_storage(run, model, pos + [n for n in gen_ints(rng, vlib.scaled(run.tier, 300, 5000)) if 0 < n <= SUPPLY])
+    mal = [x for x in FIXED_STRINGS if not GRAMMAR.fullmatch(x)][:12] + \
+          [x for x in gen_strings(rng, 60) if not GRAMMAR.fullmatch(x)][:vlib.scaled(run.tier, 8, 200)]
+    check_claim_storage(run, model, [0, 1, 9, 10 ** 8 - 1, 10 ** 8, 2 ** 53, 2 ** 53 + 1, SUPPLY] +
+                        [n for n in gen_ints(rng, vlib.scaled(run.tier, 40, 600)) if 0 <= n <= SUPPLY], mal)
+    check_history(run, model, [1, 99999999, 10 ** 8, 150000000, 2 ** 53 + 1, SUPPLY - 10 ** 7] +
+                  [n for n in gen_ints(rng, vlib.scaled(run.tier, 20, 400)) if 0 < n <= SUPPLY - 10 ** 7])
     strings = FIXED_STRINGS + list(gen_strings(rng, vlib.scaled(run.tier, 600, 20000)))
     for i, a in enumerate(strings):
         k = i % 4
@@ -354,6 +520,12 @@ def replay(run, case):
         check_to_dewies(run, model, ExchangeRateManager(), int(case['n']), 'replay')
     elif case.get('op') == 'storage':
         check_storage(run, model, [int(case['n'])])
+    elif case.get('op') == 'claim_storage':
+        check_claim_storage(run, model, [int(case['n'])], [])
+    elif case.get('op') == 'claim_batch':
+        check_claim_storage(run, model, [], [case['amount']])
+    elif case.get('op') == 'history':
+        check_history(run, model, [int(case['price'])])
     elif case.get('op') == 'dict':
         check_dict(run, model, case['d'], 'replay')
     elif case.get('op') == 'format':
